@@ -152,13 +152,13 @@ var Specs = map[string]*PropSpec{
 		Rule: "a generated operation sequence (config, ops) run against the model after every operation; non-trivial = at least 20 operations and at least one of: automatic removal, operation on an expired-unswept key, loader invocation; distinct = hash of (config, ops)"},
 	"C03": {Profiles: []string{"expiry"}, Classes: []string{"expired"}, OnExpired: true, Quick: 16000, Thorough: 1000000, MinOps: 60, MaxOps: 250,
 		Rule: "expiry-biased sequence (clock moved exactly onto deadlines, no CleanUp) where every public operation is applied to expired-but-unswept keys; non-trivial = at least 3 operations hit an expired-unswept key; distinct = hash of (config, ops)"},
-	"C07": {Profiles: []string{"size", "mix", "sweep", "queued", "sizeexp"}, Classes: []string{"overflow", "bound", "early", "tooearly"}, Quick: 16000, Thorough: 1000000, MinOps: 80, MaxOps: 400,
+	"C07": {Profiles: []string{"size", "mix", "sweep", "queued", "sizeexp", "refresh"}, Classes: []string{"overflow", "bound", "early", "tooearly", "calcexp"}, Quick: 16000, Thorough: 1000000, MinOps: 80, MaxOps: 400,
 		Rule: "size-biased sequence; every Overflow/Expiration event is judged against the model's total weight / deadline at that moment; non-trivial = at least one automatic removal; distinct = hash of (config, ops)"},
 	"C10": {Profiles: []string{"load", "refresh"}, Classes: []string{"load"}, OpKinds: []int{OpGet, OpBulkGet, OpRefresh, OpBulkRefresh}, Quick: 16000, Thorough: 1000000, MinOps: 60, MaxOps: 200,
 		Rule: "load-biased sequence with every loader outcome and bulk shape; non-trivial = at least 3 loader invocations with 2 different outcomes; distinct = hash of (config, ops)"},
 	"C11": {Profiles: []string{"refresh"}, Classes: []string{"refresh", "load"}, OpKinds: []int{OpGet, OpBulkGet, OpRefresh, OpBulkRefresh}, Quick: 12000, Thorough: 800000, MinOps: 60, MaxOps: 200,
 		Rule: "refresh-biased sequence (clock moved onto refresh deadlines); non-trivial = at least one reload and one manual refresh message; distinct = hash of (config, ops)"},
-	"C12": {Profiles: []string{"expiry", "refresh", "sweep"}, Classes: []string{"deadline", "tooearly", "calc", "expired", "early"}, Quick: 16000, Thorough: 1000000, MinOps: 60, MaxOps: 250,
+	"C12": {Profiles: []string{"expiry", "refresh", "sweep"}, Classes: []string{"deadline", "tooearly", "calc", "calcexp", "expired", "early"}, Quick: 16000, Thorough: 1000000, MinOps: 60, MaxOps: 250,
 		Rule: "deadline-biased sequence; after every operation ExpiresAtNano/RefreshableAtNano of every key is compared with op time + calculator duration (saturating); non-trivial = at least 5 calculator consultations; distinct = hash of (config, ops)"},
 	"C13": {Profiles: []string{"sweep"}, Classes: []string{"sweep", "unreported"}, Quick: 12000, Thorough: 800000, MinOps: 80, MaxOps: 400,
 		Rule: "sweep-biased sequence (TTLs ns..years, clock jumps up to many wheel revolutions, CleanUp); at each CleanUp every entry older than one tick must be gone and reported; non-trivial = at least one CleanUp that judged an expired entry; distinct = hash of (config, ops)"},
@@ -175,7 +175,7 @@ var Specs = map[string]*PropSpec{
 func (s *PropSpec) refutes(class string, opKind int, onExpired ...bool) bool {
 	if s.OnExpired && len(onExpired) > 0 && onExpired[0] {
 		switch class {
-		case "ret", "event", "unreported", "calc", "deadline", "tooearly", "views", "load", "refresh":
+		case "ret", "event", "unreported", "calc", "calcexp", "deadline", "tooearly", "views", "load", "refresh":
 			return true // the operation treated a dead entry as if it were there
 		}
 	}
@@ -186,7 +186,7 @@ func (s *PropSpec) refutes(class string, opKind int, onExpired ...bool) bool {
 	}
 	// the cache's state or an event deviates from the model during an operation the property is about
 	switch class {
-	case "ret", "event", "unreported", "calc", "views", "expired":
+	case "ret", "event", "unreported", "calc", "calcexp", "views", "expired":
 		for _, k := range s.OpKinds {
 			if k == opKind {
 				return true
